@@ -240,6 +240,72 @@ def circuit_case(case):
     return {"ok": True, "nt": bool(fs), "ops": k, "out": "len%d" % len(ops)}
 
 
+def long_circuit_case(case):
+    """{'order': permutation seed, 'L': length}: a circuit of L operations over 12 symbols whose names sort differently as text and as numbers (x2, x10, x[3], x[12], beta_2,
+    beta_10 ...): free symbols in first-appearance order, Circuit.bind = per-operation substitution for partial maps, several partial steps = one step"""
+    from orquestra.quantum import circuits as C
+    names = ["x2", "x10", "x1", "x[3]", "x[12]", "beta_2", "beta_10", "theta", "a", "B", "x[1]", "zeta"]
+    syms = [sympy.Symbol(nm) for nm in names]
+    rot = case["order"] % len(syms)
+    syms = syms[rot:] + syms[:rot]
+    ops = []
+    for i in range(case["L"]):
+        s1, s2, s3 = syms[(i * 5) % 12], syms[(i * 7 + 3) % 12], syms[(i + 1) % 12]
+        kind = i % 6
+        if kind == 0:
+            ops.append(C.RX(s1)(i % 3))
+        elif kind == 1:
+            ops.append(C.U3(s2 + 0.5, 2 * s1, s3 * s1)(i % 3))
+        elif kind == 2:
+            ops.append(C.CPHASE(s1 - s2)((i + 1) % 3, i % 3))
+        elif kind == 3:
+            ops.append(C.RY(sympy.cos(s3)).controlled(1).dagger(i % 3, (i + 2) % 3))
+        elif kind == 4:
+            ops.append(C.MultiPhaseOperation((s1, 0.5, s2, s1 + s3, 0.0, 1.5, s3, -s2)))
+        else:
+            ops.append(C.RZ(0.25 * (i + 1))(i % 3))
+    c = C.Circuit(ops, n_qubits=3)
+    fs = list(c.free_symbols)
+    union, pos = set(), 0
+    for o in ops:
+        new = set(o.free_symbols) - union
+        if set(fs[pos:pos + len(new)]) != new:
+            return {"ok": False, "msg": "circuit.free_symbols %s does not follow first appearance (operation %s introduces %s)" % (fs, o, sorted(new, key=str)), "sig": "long:free-symbol-order"}
+        pos += len(new)
+        union |= new
+    if len(fs) != len(union) or set(fs) != union:
+        return {"ok": False, "msg": "circuit.free_symbols %s is not the duplicate-free union of the operations' symbols" % fs, "sig": "long:free-symbols"}
+    k = 1
+    vals = [0.3, -1.2, 0, sympy.Rational(1, 3), E, 2.5, 0.0, 7, -0.4, 1.1, sympy.pi, 0.9]
+    maps = [{}, {s_: vals[j] for j, s_ in enumerate(syms)}] + [{s_: vals[j] for j, s_ in enumerate(syms) if (j + sh) % 3 == 0} for sh in range(3)] + \
+           [{s_: vals[j] for j, s_ in enumerate(syms) if j % 2 == par} for par in (0, 1)] + [{syms[j]: vals[j]} for j in range(12)]
+    for m in maps:
+        b = c.bind(m)
+        k += 1
+        if b.n_qubits != 3 or len(b.operations) != len(ops):
+            return {"ok": False, "msg": "Circuit.bind changed the width or the number of operations", "sig": "long:shape", "ops": k}
+        for o0, o1 in zip(ops, b.operations):
+            exp = [expected_param(p, m) for p in o0.params]
+            if type(o1) is not type(o0) or len(o1.params) != len(exp) or not all(same_expr(x, y) for x, y in zip(exp, o1.params)):
+                return {"ok": False, "msg": "Circuit.bind(%s): operation %s became %s, substitution gives parameters %s" % ({str(a_): str(v) for a_, v in m.items()}, o0, o1, exp), "sig": "long:param", "ops": k}
+        want = set()
+        for o0 in ops:
+            for p in o0.params:
+                e_ = expected_param(p, m)
+                if isinstance(e_, sympy.Basic):
+                    want |= e_.free_symbols
+        if set(b.free_symbols) != want or len(list(b.free_symbols)) != len(want):
+            return {"ok": False, "msg": "bound circuit reports free symbols %s, parameters depend on %s" % (b.free_symbols, sorted(want, key=str)), "sig": "long:bound-free-symbols", "ops": k}
+        items = list(m.items())
+        if len(items) >= 2:
+            two = c.bind(dict(items[: len(items) // 2])).bind(dict(items[len(items) // 2:]))
+            k += 1
+            for o1, o2 in zip(b.operations, two.operations):
+                if len(o1.params) != len(o2.params) or not all(same_expr(x, y) for x, y in zip(o1.params, o2.params)):
+                    return {"ok": False, "msg": "binding the long circuit in two steps differs from binding once", "sig": "long:split", "ops": k}
+    return {"ok": True, "nt": True, "ops": k, "out": "L%d" % case["L"]}
+
+
 def assume_case(case):
     """{'kind': symbol flavour}: symbols carrying assumptions / Dummy symbols are ordinary symbols for binding: gate.bind, operation.bind and Circuit.bind
     substitute them, report the remaining free symbols and give the matrix obtained by substitution"""
@@ -301,7 +367,7 @@ def map_history_case(case):
     return {"ok": True, "nt": len(case["hist"]) >= 2, "ops": k, "out": case["op"]["k"]}
 
 
-FUNCS = {"map_histories": map_history_case, "assumption_symbols": assume_case, "operations": op_case, "refusals": refuse_case, "circuits": circuit_case}
+FUNCS = {"long_circuits": long_circuit_case, "map_histories": map_history_case, "assumption_symbols": assume_case, "operations": op_case, "refusals": refuse_case, "circuits": circuit_case}
 
 
 def op_alphabet(thorough):
@@ -357,6 +423,8 @@ def run(run):
     hev = [[0, "0.3"], [0, "-1.2"], [0, "e"], [1, "0.3"], [1, "0"], [0, "u"], [2, "1/3"]]
     hh = [{"op": o, "hist": [hev[i] for i in combo]} for o in hops for d in (2, 3) for combo in itertools.product(range(len(hev)), repeat=d) if len(set(combo)) == d or d == 2]
     secs.append(Section("map_histories", hh if thorough else hh[::2], map_history_case, horizon=600, desc="one symbol map updated in place between binds (every history of 2-3 updates over 7): each bind sees the current content"))
+    secs.append(Section("long_circuits", [{"order": o, "L": L_} for o in range(12) for L_ in ((7, 40, 130) if thorough else (7, 40))], long_circuit_case, horizon=900, chunk=1,
+                        desc="circuits of 7 / 40 (thorough 130) operations over 12 symbols named x2, x10, x[3], x[12], beta_2, beta_10 ...: first-appearance order, 19 partial maps, two-step binds"))
     secs.append(Section("assumption_symbols", [{"kind": k} for k in ("plain", "real", "positive", "dummy", "integer")], assume_case, horizon=600, chunk=1,
                         desc="symbols with assumptions / Dummy symbols through gate.bind, operation.bind, Circuit.bind"))
     run.run_sections(secs)
